@@ -8,7 +8,8 @@ CONSTANT Tier
 Quick == Tier = "quick"
 
 Cfgs == { <<DummyKey, "none">>, <<OctKey(32, "a", NONE, NONE), "HS256">>, <<AsymKey("rsa2048a", 0, NONE, NONE), "RS256">>,
-          <<AsymKey("p256a", 0, NONE, NONE), "ES256">>, <<AsymKey("ed25519a", 0, NONE, NONE), "EdDSA">> }
+          <<AsymKey("p256a", 0, NONE, NONE), "ES256">>, <<AsymKey("ed25519a", 0, NONE, NONE), "EdDSA">>,
+          <<AsymKey("k256a", 0, NONE, NONE), "ES256">>, <<AsymKey("k256a", 0, NONE, NONE), "ES256K">>, <<AsymKey("rsa2048a", 0, "PS256", NONE), "PS256">> }
 Shapes == {"3seg", "null", "empty", "0dot", "1dot", "2seg", "lead", "4seg", "4segempty"}
 HClasses == {"obj", "objws", "notjson", "arr", "scalar", "strjson", "nulljson", "notb64", "len1mod4", "empty", "emptyobj", "dupkeys"}
 PClasses == {"obj", "objws", "notjson", "arr", "scalar", "strjson", "nulljson", "notb64", "len1mod4", "empty", "emptyobj"}
